@@ -120,9 +120,75 @@ def _check_union_like(res, f, first_desc, first_test, second_name):
         res.fail_at("C24-S1", f, f"{f.qualname}:return", f"{f.qualname} does not return the union")
 
 
+def _s3_inherited_operators(program, res):
+    """set operators the class does not define come from collections.abc.Set; of those, __and__ builds its result by iterating the
+    *other* operand (facts.ABC_SET_MIXINS_ORDERED_BY_OTHER) — an ordered set has to define it to stay ordered by its own elements"""
+    from .. import facts
+    cls = program.cls("OrderedSet", "OrderedSet")
+    bases = [unparse(b) for b in cls.node.bases]
+    if not any("Set" in b for b in bases):
+        raise AnalysisError(f"OrderedSet no longer derives from an abstract Set class (bases: {bases})")
+    for op, why in sorted(facts.ABC_SET_MIXINS_ORDERED_BY_OTHER.items()):
+        m = cls.methods.get(op)
+        aliases = [st for st in cls.node.body if isinstance(st, ast.Assign) and unparse(st.targets[0]) == op]
+        if m is None and not aliases:
+            res.fail("C24-S3", "OrderedSet:OrderedSet", f"inherited-operator-ordered-by-other:{op}",
+                     f"OrderedSet does not define {op}; the inherited one ({why}) orders the result by the second operand: "
+                     f"OrderedSet('abcd') & OrderedSet('dcxa') iterates d,c,a (and `intersection` is an alias of it), while &=, intersection_update and "
+                     f"ordered_intersect give a,c,d", "data_algebra/OrderedSet.py", cls.node.lineno)
+            continue
+        if m is not None:
+            res.analysed(m)
+            other = [p for p in m.params() if p != "self"][0]
+            g = cfgmod.build(m.node)
+            d = depsmod.Deps(g, m.params())
+            ok = False
+            for r in g.returns():
+                v = r.stmt.value
+                # ordered_intersect(self, other) / a comprehension iterating self
+                for c in ast.walk(v):
+                    if isinstance(c, ast.Call) and dotted_name(c.func) in ("ordered_intersect",) and c.args and unparse(c.args[0]) == "self":
+                        ok = True
+                    if isinstance(c, (ast.ListComp, ast.GeneratorExp)) and "self" in d.roots_at(r, c.generators[0].iter) \
+                            and other not in d.roots_at(r, c.generators[0].iter):
+                        ok = True
+            if ok:
+                res.ok("C24-S3", f"{op} builds its result by iterating self")
+            else:
+                res.fail_at("C24-S3", m, f"operator-not-ordered-by-self:{op}", f"OrderedSet.{op} does not build its result by iterating self")
+
+
+def _s4_relations(program, res):
+    """<=, <, >=, > (issubset / issuperset are aliases) accept any iterable like set's methods do: membership has to be tested in a
+    materialised set, not with `in` on the raw argument (an iterator is consumed, a string matches substrings, a Series looks at its index)"""
+    cls = program.cls("OrderedSet", "OrderedSet")
+    for mname in ("__le__", "__lt__", "__gt__"):
+        m = cls.methods.get(mname)
+        if m is None:
+            raise AnalysisError(f"anchor vanished: OrderedSet.{mname}")
+        res.analysed(m)
+        other = [p for p in m.params() if p != "self"][0]
+        raw_in = [c for c in ast.walk(m.node) if isinstance(c, ast.Compare) and len(c.ops) == 1 and isinstance(c.ops[0], (ast.In, ast.NotIn))
+                  and isinstance(c.comparators[0], ast.Name) and c.comparators[0].id == other]
+        raw_ne = [c for c in ast.walk(m.node) if isinstance(c, ast.Compare) and len(c.ops) == 1 and isinstance(c.ops[0], (ast.NotEq, ast.Eq))
+                  and {unparse(c.left), unparse(c.comparators[0])} == {"self", other}]
+        rebinds = any(isinstance(st, ast.Assign) and unparse(st.targets[0]) == other for st in ast.walk(m.node))
+        if (raw_in or raw_ne) and not rebinds:
+            what = raw_in[0] if raw_in else raw_ne[0]
+            res.fail_at("C24-S4", m, f"relation-on-raw-argument:{mname}",
+                        f"OrderedSet.{mname} evaluates `{unparse(what)}` on the argument as given: OrderedSet([2,1]).issubset(iter([1,2])) is False (the iterator is consumed "
+                        f"out of order), OrderedSet(['ab']).issubset('abc') is True (substring), and OrderedSet([1,2]) < [1,2] is True (a list is never == a set)", what)
+        else:
+            res.ok("C24-S4", f"{mname} compares against a materialised set of the argument")
+
+
 def run(program, res, tier):
     res.rule("C24-S1", "ordered helpers take their order from the first argument, then the second")
     res.rule("C24-S2", "OrderedSet.add only ever inserts; one insertion-ordered field backs every observer")
+    res.rule("C24-S3", "operators inherited from collections.abc.Set that order by the other operand are overridden")
+    res.rule("C24-S4", "subset / superset relations test membership in a materialised set")
+    _s3_inherited_operators(program, res)
+    _s4_relations(program, res)
     _check_filter_helper(program, res, "ordered_intersect", ast.In)
     _check_filter_helper(program, res, "ordered_diff", ast.NotIn)
     ou = program.func("OrderedSet", "ordered_union")
